@@ -30,7 +30,7 @@ CLAIMED["C01"] = stage_entry("3 C01", "TLC checks on Stage.tla, in every reachab
 CLAIMED["C04"] = stage_entry("3 C04", "TLC checks on Stage.tla that a file is logged only after its announced predecessor (first log index order) for chains, a predecessor cycle (with the cycle breaker) and restarts; on the real Stage the same formula and 'a validated file whose predecessor is not delivered is held and answered waiting; waiting is said only for a held file' are evaluated over TLC-generated sequences in four universes (chain, cycle, same leaf name in two directories with rename, names that are substrings of one another).")
 CLAIMED["C05"] = stage_entry("3 C05", "TLC checks on Stage.tla that every (name, hash) arrives in the final directory at most once and is logged at most 1 + crashes times, over all retransmission interleavings of a protocol-following sender, crashes, cleaning and cache expiry; on the real Stage the arrivals are counted at the hook after the move and the formulas, 'queries change nothing durable' and 'a retransmission of a delivered version is acknowledged and has no effect' are evaluated by TLC on the observed states.")
 CLAIMED["C06"] = stage_entry("3 C06", "TLC explores a crash after every durable action of Stage.tla (one action per file-system mutation) followed by the steps of Recover, and checks no stranded move, no loss of anything confirmed, C01 and C05 across the crash; on the real code every occurrence of every hook point of every command of the selected scenarios is a crash point (image copied while the goroutine is parked, new Stage + Recover on the image, sender asks before re-sending) and TLC evaluates the same formulas and the post-recovery condition of every companion on the observed states.", ) | dict(category="model_checking")
-CLAIMED["C09"] = stage_entry("3 C09", "TLC checks on Stage.tla (two connections, write before lock) that a companion only claims blocks that were written into a staged body and that a body is treated as complete only if every block was written; on the real Stage the formulas are evaluated on the observed .part/.full/.wait bytes against the companion, Scan listings and Received answers.")
+CLAIMED["C09"] = stage_entry("3 C09", "TLC checks on Stage.tla (two connections, write before lock) that a companion only claims blocks that were written into a staged body and that a body is treated as complete only if every block was written; on the real Stage the formulas are evaluated on the observed .part/.full/.wait bytes against the companion, Scan listings, Received answers and the count answered to two-part 'how many of these did you get' queries (only leading parts on record may be counted).")
 CLAIMED["C20"] = stage_entry("3 C20", "TLC checks on Stage.tla that cleaning removes a partial or companion only of a (name, hash) that was delivered or logged, with AgePart / CleanStray / CleanLoop / ExpireCache enabled between the requests of a running transfer; on the real Stage CleanNow is run after TLC-generated histories (aged partials via chtimes) and TLC evaluates the formula on what the clean hook reported plus 'cleaning touches nothing but day-old partials and their companions'.")
 CLAIMED["C18"] = dict(engine="xferlog", design="3 C18",
    text="TLC checks completeness and exactness of look-ups and field fidelity of Parse on a character-level model of the record format, the day walk and the line matching for every history of <=2 (quick) / 3 (thorough) records over names that are substrings of one another and every window; sampled enumerated histories and random ones are executed on the real log.FileIO and TLC evaluates the formulas on the observed answers.",
@@ -51,21 +51,24 @@ def sender_entry(text, technique):
 ST = "TLA+ environment model (SenderEnv.tla) enumerated by TLC; every schedule executed on the real client.Broker against a real receiver; TLC trace validation of the recorded execution against the formulas of SenderTrace.tla"
 CLAIMED["C02"] = sender_entry("TLC enumerates file changes (rewrite, touch, delete; same and different size) at every interface call of the Broker and at the k-th call of every kind, with deletion on/off, poll delay shorter and longer than the scan delay, sender crashes at every call, lost / failed poll answers; each schedule runs on the real Broker + real receiver and TLC checks on every prefix of the recorded execution that a file is marked done only for the cached version the receiver holds validated after a positive poll, that a deletion concerns exactly the content the source has at that instant, and that the receiver answers positively only for what it holds.", ST)
 CLAIMED["C03"] = sender_entry("Liveness as bounded delivery: for every schedule of the fault, crash and change families (every failure kind at every position of the first requests, double failures, failing recovery requests, crash at every call, file changes), after the last fault the run continues for a quiet period, one clean interval of the receiver elapses, the sender is stopped gracefully, and TLC checks on the recorded end state that the sender terminated and every eligible unchanged file is in the final directory in its latest version.", ST)
-CLAIMED["C07"] = sender_entry("A sender crash is placed at every interface call (1..40) of runs with 2-3 files, 1-2 threads, deletion on/off, with and without a 206 failure in flight, and twice in a row; the restarted real Broker recovers against the real receiver; TLC checks that after the restart no byte range the receiver listed as held and no file it held completely is transmitted again (unless a poll said so), nothing is released unconfirmed and everything is delivered.", ST)
+CLAIMED["C07"] = sender_entry("A sender crash is placed at every interface call (1..40) of runs with 2-3 files, 1-2 threads, deletion on/off, with and without a 206 failure in flight, and twice in a row; in addition every partial-reception state of a 64-byte file in 8 chunks (all 255 non-empty subsets, each chunk recorded by a request of its own, so with gaps and unmerged) is put on the receiver through the real client when the crashed sender restarts; the restarted real Broker recovers against the real receiver; TLC checks that after the restart no byte range the receiver listed as held and no file it held completely is transmitted again (unless a poll said so), nothing is released unconfirmed and everything is delivered.", ST)
 CLAIMED["C08"] = sender_entry("Every failure kind (refused before processing, answer lost after processing, 206 after j parts) at every position of the first three requests, combined with failing recovery requests and pairs of failures, 1-2 sender threads: TLC checks on the recorded execution that the receiver's count equals the leading parts it has on record, that the first follow-up request carries exactly the remainder, and that a file is logged as sent only when the ranges the receiver recorded add up to its size.", ST)
-CLAIMED["C16"] = sender_entry("A graceful or immediate stop is placed at every interface call (1..40) of runs with 1-2 files and threads, with and without a lost answer in flight, plus one-shot runs over all configurations; TLC checks that Broker.Start returned, that everything confirmed is recorded in the persisted queue cache, and that a fault-free graceful stop delivered every file a scan had found.", ST)
+CLAIMED["C16"] = dict(engine="sender", design="7.5", category="model_checking",
+   text="TLC explores every interleaving of Sender.tla, a PlusCal model of Broker.Start (one process per goroutine group, channels with capacity, sendCh / recvCh with their stop predicates, WaitGroups, downstream-ward closes), with a stop of either kind at any moment, bounded request failures, negative verdicts and vanishing files, and checks that no channel is closed before its writers left, that a graceful stop drains, that the tracker is never parked for good and (thorough) that every stop terminates; with the switches KF_S17 / KF_S27 (the code as found) TLC must find the two repaired hangs. The model is bound to the code by the hooks at every goroutine exit, channel close and return (the recorded order must satisfy ShutdownOrder.tla on every run) and by the schedule families stops / stops2 / plain / faulty of SenderEnv.tla: a stop placed at every interface call of the real Broker, one-shot runs, validation failures by corruption, with P_C16_Terminates / Recorded / Drain / ExitOrder evaluated by TLC on the recorded execution.",
+   note=SENDER_NOTE + " Sender.tla abstracts a file to one part and a payload to one file; quick: one file, capacity 1, one sender thread.",
+   technique="PlusCal/TLA+ model of the Broker's shutdown choreography model-checked with TLC; hook-recorded exit/close order and TLC-enumerated stop schedules on the real Broker validated by TLC trace checking")
 CLAIMED["C17"] = sender_entry("TLC enumerates the eligibility matrix (hidden file / hidden directory / lock file / empty / too young / ignored / not included / symbolic link x include-hidden x minimum age x ignore and include patterns x deletion x one-shot) and file changes at every call; TLC checks on the recorded execution that only eligible names are found, transmitted or deleted, the first scan finds every eligible file, a confirmed unchanged version is never transmitted again, and what is delivered is one whole version the source had.", ST)
 CLAIMED["C13"] = dict(engine="framing", design="3 framing",
-   text="TLC explores the encoder / decoder state machines of Framing.tla (Encoder.Read, NewDecoder, PartDecoder.Read over tagged bytes) for every payload of 1-3 parts, every sequence of reader buffer sizes on both sides and every truncation point, and checks round trip, refusal and no-foreign-byte; every (payload, cut) is concretised and run through the real payload.Bin encoder and payload.NewDecoder in memory and through http.Client.Transmit -> http.Server.routeData -> a recording gatekeeper at gzip 0 and a seeded level; TLC evaluates the formulas on the observed parts and descriptors.",
-   note="Trusted: TLC, Json module, the harness's concretisation (names with unicode / spaces / sub-directories, both separator conventions, nanosecond times). Wrong X-STS-MetaLen announcements and a cut inside the JSON header over HTTP are outside the model (the request fails as a whole).",
+   text="TLC explores the encoder / decoder state machines of Framing.tla (Encoder.Read, NewDecoder, PartDecoder.Read over tagged bytes) for every payload of 1-3 parts, every sequence of reader buffer sizes on both sides and every truncation point, and checks round trip, refusal and no-foreign-byte; every (payload, cut, end-of-stream style) is concretised and run through the real payload.Bin encoder and payload.NewDecoder in memory (both path-separator conventions, rename targets, the stream's end signalled alone or together with the last bytes), intact payloads through http.Client.Transmit -> http.Server.routeData -> a recording gatekeeper at gzip 0 and a seeded level, and payloads cut inside their body as well-formed short requests (Content-Length, and gzip + chunked); TLC evaluates the formulas on the observed parts and descriptors.",
+   note="Trusted: TLC, Json module, the harness's concretisation (names with unicode / spaces / sub-directories, both separator conventions, nanosecond times). Wrong X-STS-MetaLen announcements and a cut inside the JSON header are outside the model (the request fails as a whole); transport-level aborts surface as transport errors before the part reader sees an end of stream.",
    technique="TLA+ byte-level model of the payload wire format model-checked with TLC; every enumerated case replayed on the real encoder/decoder and over real HTTP; TLC trace validation")
 GATE_NOTE = ("Trusted: TLC, Json module, the harness's rendering of abstract requests and its before/after listing of the sandbox (the messages log is excluded). The receiver is the real sts binary (built with -tags verif for the pause point only). "
-  "A server is restarted after every request that touched the disk so that asynchronous effects are attributed to the right request. Open finding S14 (Recover started as a goroutine) is exempted by a switch for requests sent before recovery was scheduled.")
+  "A server is restarted after every request that touched the disk so that asynchronous effects are attributed to the right request; besides the before/after listing an inotify watch on every directory of the sandbox reports files that were created, written or renamed while the request was served and are gone afterwards (transient escapes). Open finding S14 (Recover started as a goroutine) is exempted by a switch for requests sent before recovery was scheduled.")
 CLAIMED["C14"] = dict(engine="gate", design="3 gate",
    text="TLC enumerates every abstract request of Gate.tla (6 routes x source values x key values x names / rename targets / static paths built from '..', absolute, empty and dot segments x configured source and key lists x recovery in progress) and checks confinement and 'refused means no effect' on a model of handleValidate, the source -> directory mapping and the routes; a seeded sample (quick) or all (thorough) are rendered (header or query string, either separator, percent-encoded traversal) and sent to the real sts binary in a sandbox whose roots are a proper sub-directory; TLC evaluates the formulas on the observed status and touched locations.",
    note=GATE_NOTE, technique="TLA+ model of the request gate model-checked with TLC; enumerated requests replayed on the real sts binary; TLC trace validation of observed status and file-system effects")
 CLAIMED["C15"] = dict(engine="gate", design="3 gate",
-   text="Same model and binding as C14, formulas: a request whose source or key is not allowed is answered 403 (400 without or with a malformed source) and touches nothing; while the start-up recovery of a source is parked at a pause point inside the real Recover(), its requests are answered 503 and touch nothing.",
+   text="Same model and binding as C14, formulas: a request whose source or key is not allowed is answered 403 (400 without or with a malformed source) and touches nothing; while the start-up recovery of a source (also one whose name contains a separator) is parked at a pause point inside the real Recover(), its requests are answered 503 and touch nothing.",
    note=GATE_NOTE, technique="TLA+ model of the request gate model-checked with TLC; enumerated requests replayed on the real sts binary with recovery parked at a hook; TLC trace validation")
 
 NOT_YET = {}
